@@ -162,3 +162,15 @@ CHECKS["C05"] = dict(
     outside=["arrival-time values other than the tabled boundary values (the 64-bit divide/multiply chain by 250 and 64000 does not finish symbolically: unknown at 60 s in z3 and cvc5; cvc5 --solve-bv-as-int=sum decides single steps only)", "gaps longer than 2 / sequence jumps beyond 4", "the 500 ms culling rule (steps stay below it)", "first sequence number below the reordering distance (unwrapper corner)", "sender interceptor loop"],
     assumptions=["case splits over the tables are exhaustive per table; each path's arithmetic is concrete, the solver decides the sequence-number arithmetic (symbolic base) and all slice/index checks"],
 )
+
+CHECKS["C16"] = dict(
+    jobs=[
+        dict(pkg="pkg/gcc", entry="HC16Publish", require_covers=["callback fired", "loss controller has adapted"]),
+        dict(pkg="pkg/gcc", entry="HC16RateStep", require_covers=["step", "stats written"], tiers=["thorough"], thorough=dict(timeout=3000)),
+    ],
+    level_note="PARTIAL CLAIM: only the integer envelope of the estimator (clamps, min, publication to getter/pacer/callback) from arbitrary controller states; nothing about estimator quality, the Kalman/threshold/EMA numerics, liveness of the channel pipeline or Close. Trusted: go/ssa, gosym, z3/cvc5.",
+    bounds=dict(quick="one SendSideBWE.onDelayUpdate from an arbitrary state: any 0 < min <= initial <= max < 2^30, delay target anywhere in [min,max], loss controller bitrate at its initial value or anywhere in its private range; callback goroutine run to completion",
+                thorough="plus one rateController.onDelayStats step from an arbitrary state (any target in bounds, received rate < 2^40, RTT, elapsed time, arbitrary float64 moving averages incl. NaN/Inf, any usage/state); math.Pow is an uninterpreted function"),
+    outside=["numerical behaviour of the estimator", "WriteRTCP pipeline, Close, both pacers' timing", "loss controller update arithmetic (only its private clamp invariant is assumed)"],
+    assumptions=["time.Now nondeterministic non-decreasing", "math.Pow/Exp uninterpreted", "float->int conversion as go1.24/amd64"],
+)
